@@ -63,7 +63,7 @@ DefaultVal == <<"a", "e1">>
 RECURSIVE Code(_)
 Code(v) == IF v = <<>> THEN 0 ELSE Idx(v[1]) + 5 * Code(Tail(v))
 FormOf(v) == (Code(v) % Len(Forms)) + 1
-HasProps(f) == Carries[MetaTypeOf[f]] # {}
+HasProps(f) == f \in DOMAIN MetaTypeOf /\ f \in DOMAIN Stores /\ (Carries[MetaTypeOf[f]] \cap Stores[f]) # {}
 
 Cases ==
     { [fmt |-> f, form |-> k, val |-> v] : f \in Formats, k \in DOMAIN Forms, v \in Vals \cup {DefaultVal} }
